@@ -131,3 +131,38 @@ pub fn str_lines_vec<'a>(s: &'a str) -> (v: Vec<&'a str>)
 {
     s.lines().collect::<Vec<_>>()
 }
+
+/// relation between the arguments and the result of `[T]::join(sep)`
+pub uninterp spec fn join_rel<T, Separator, O>(s: &[T], sep: Separator, out: O) -> bool;
+
+#[verifier::external_trait_specification]
+pub trait ExJoin<Separator> {
+    type ExternalTraitSpecificationFor: std::slice::Join<Separator>;
+    type Output;
+}
+
+pub assume_specification<T, Separator>[ <[T]>::join::<Separator> ](s: &[T], sep: Separator) -> (r: <[T] as std::slice::Join<Separator>>::Output)
+    where [T]: std::slice::Join<Separator>
+    ensures
+        join_rel(s, sep, r),
+;
+
+/// `[String]::join(&str)` (std docs): the strings separated by `sep`
+#[verifier::external_body]
+pub broadcast proof fn axiom_join_strings(s: &[String], sep: &str, out: String)
+    requires
+        #[trigger] join_rel::<String, &str, String>(s, sep, out),
+    ensures
+        out@ == join_with(s@.map_values(|x: String| x@), sep@),
+{
+}
+
+/// R6/R3': stands for `raw_output.map(|s| format!("{whitespaces}{line}", line = s.as_ref())).collect::<Vec<_>>()`:
+/// every string the iterator yields, prefixed with `whitespaces` (Display for str is the identity)
+#[verifier::external_body]
+pub fn prefix_each<I: Iterator<Item = S>, S: AsRef<str>>(raw_output: I, whitespaces: &str) -> (v: Vec<String>)
+    ensures
+        v@.map_values(|x: String| x@) == iter_strs(raw_output).map_values(|l: Seq<char>| whitespaces@ + l),
+{
+    raw_output.map(|s| format!("{whitespaces}{line}", line = s.as_ref())).collect::<Vec<_>>()
+}
